@@ -31,6 +31,13 @@ purpose is in design.d/C19.md, every construct is run through Python and Lean by
                `s.startswith(p)`, `s.lower()`, `s.split()`, `s.split("c")`, `s.replace("c", "")`, `a + b` on strings, `and`, `or`, `not`, `a if c else b`,
                `a or b` on lists, truthiness of lists and sets, `[e for x in l if c]`, `any(…)` / `all(…)` over a
                generator, `{*l}` with `-`, `&`, `|` of which only emptiness (`len(S) > 0`, truthiness) is observable
+  added for harness/pygen_pxindex.py (C16, C17; selftest: harness/pygen_pxindex_selftest.py): call templates through a
+               chain of method calls (`d.get(_1, {}).get(_2, _3)`, `{}` stays in the key); `x = set()`, `|=` on sets;
+               a nested accumulating `for`; locals that are None until they get a value (`local_types {x: ("opt", T)}`:
+               `x = None`, `x is None`, the value branch of `if x is None: … else: …` in an accumulating loop and of
+               `a if x is not None else b` reads the payload, any other read is refused); `list(l)`, `set(l)`,
+               `S.intersection(l)`, sets / membership of an opaque element type (membership only); a statement pinned to
+               the empty action among the leading bindings of a loop body
   atoms        expressions the caller gives a meaning to (`spec.atoms`: normalised Python source -> Lean term, type),
                e.g.  `self.params.get('nets_spawner')` -> `nets_spawner : Option String`,
                `'swarm' in self.params['pool_scope']` -> `swarm_in_scope : Bool`, `worker` -> `worker : Bool` (truthiness);
@@ -101,9 +108,24 @@ LEAN_KEYWORDS = {
 def lean_type(t):
     if isinstance(t, tuple) and t[0] == "tuple":
         return " × ".join(("(" + lean_type(x) + ")") if isinstance(x, tuple) else lean_type(x) for x in t[1])
-    if isinstance(t, tuple) and t[0] == "list":
+    if isinstance(t, tuple) and t[0] in ("list", "set"):     # a set is a list of which only membership is observed
         return "List " + (("(" + lean_type(t[1]) + ")") if isinstance(t[1], tuple) or " " in lean_type(t[1]) else lean_type(t[1]))
+    if isinstance(t, tuple) and t[0] == "opt":              # a local that is `None` until it gets a value of type t[1]
+        return "Option (" + lean_type(t[1]) + ")"
     return LEAN_TYPES.get(t, t)
+
+
+def set_elem_type(t):
+    """element type of a set type (None when `t` is not a set)"""
+    if t == "sset":
+        return "str"
+    if isinstance(t, tuple) and t[0] == "set":
+        return t[1]
+    return None
+
+
+def set_of(t):
+    return "sset" if t == "str" else ("set", t)
 
 
 def elem_type(t):
@@ -596,6 +618,8 @@ class _Fn:
             if not (isinstance(right, ast.Constant) and right.value is None):
                 raise Unsupported(f"{where}: `{ast.unparse(node)}` (only `is None` / `is not None`)")
             a, ta = self.expr(node.left, eff)
+            if isinstance(ta, tuple) and ta[0] == "opt":
+                return (f"{a}.isNone" if isinstance(op, ast.Is) else f"{a}.isSome"), "bool"
             if ta != "optstr":
                 raise Unsupported(f"{where}: `is None` on a {ta}")
             t = f"({a} == none)"
@@ -614,7 +638,8 @@ class _Fn:
                                       f"strings, a module constant holding one, a list or a string, and the test is "
                                       f"not an atom ({e})")
                 a, ta = self.expr(node.left, eff)
-                if (ta, tb) == ("str", "slist"):
+                if (ta, tb) == ("str", "slist") or (ta, tb) == ("str", "sset") \
+                        or (ta in self.spec.type_defaults and tb in (("list", ta), ("set", ta))):
                     t = f"({b}.contains {a})"
                 elif (ta, tb) == ("str", "str"):
                     t = f"({self.spec.prims['substr']} {a} {b})"
@@ -655,10 +680,45 @@ class _Fn:
             raise Unsupported(f"{self.fn.name}:{node.lineno}: `{ast.unparse(node)}`")
         return f"(!{self.cond(node.operand, eff)})", "bool"
 
+    def _none_test(self, test):
+        """`x is None` / `x is not None` for a local `x` that is None until it gets a value -> (x, True when the test is
+        `is None`, type of the value), else None"""
+        if isinstance(test, ast.Compare) and len(test.ops) == 1 and isinstance(test.ops[0], (ast.Is, ast.IsNot)) \
+                and isinstance(test.left, ast.Name) and isinstance(test.comparators[0], ast.Constant) \
+                and test.comparators[0].value is None and self.atom(test) is None and self.atom(test.left) is None \
+                and not any(test.left.id in sc for sc in self.scopes):
+            ty = self.locals.get(test.left.id)
+            if isinstance(ty, tuple) and ty[0] == "opt":
+                return test.left.id, isinstance(test.ops[0], ast.Is), ty[1]
+        return None
+
+    def _narrowed(self, name, ty, f):
+        """translate under the knowledge that the optional local `name` holds a value: reads of it are the payload"""
+        return self._under({name: (f"pyVal_{name}", ty)}, f)
+
+    def _empty_or(self, node, eff, ty):
+        """a branch of a conditional expression; `[]` / `set()` take the type of the other branch"""
+        if ty is not None and ((isinstance(node, ast.List) and not node.elts and elem_type(ty) is not None)
+                               or (isinstance(node, ast.Call) and isinstance(node.func, ast.Name) and node.func.id == "set"
+                                   and "set" not in self.assigned and not node.args and not node.keywords
+                                   and set_elem_type(ty) is not None)):
+            return "[]", ty
+        return self.expr(node, eff)
+
     def e_IfExp(self, node, eff):
+        nt = self._none_test(node.test)
+        if nt is not None:
+            # `x if x is not None else e`: the value branch reads the payload of the optional local
+            name, is_none, ty = nt
+            vnode, nnode = (node.orelse, node.body) if is_none else (node.body, node.orelse)
+            a, ta = self._narrowed(name, ty, lambda: self.expr(vnode, False))
+            b, tb = self._empty_or(nnode, False, ta)
+            if ta != tb:
+                raise Unsupported(f"{self.fn.name}:{node.lineno}: `{ast.unparse(node)}`: branches {ta}/{tb}")
+            return f"(match {lean_ident(name)} with | some pyVal_{name} => {a} | none => {b})", ta
         c = self.cond(node.test, eff)
         a, ta = self.expr(node.body, False)
-        b, tb = self.expr(node.orelse, False)
+        b, tb = self._empty_or(node.orelse, False, ta)
         if ta != tb:
             raise Unsupported(f"{self.fn.name}:{node.lineno}: `{ast.unparse(node)}`: branches {ta}/{tb}")
         return f"(if {c} then {a} else {b})", ta
@@ -687,16 +747,30 @@ class _Fn:
         """a call as a key of `spec.calls`: the positional arguments other than string constants replaced by `_1`,
         `_2`, …; returns (key, the replaced arguments)"""
         import copy
-        c = copy.deepcopy(node)
-        holes, args = [], []
-        for a in node.args:
-            if isinstance(a, ast.Constant) and isinstance(a.value, str):
-                args.append(copy.deepcopy(a))
+        holes = []
+
+        def templ(call):
+            c = copy.copy(call)
+            # a method call on the result of a call (`d.get(k, {}).keys()`): the receiver's arguments are holes too,
+            # numbered first (Python evaluates the receiver first)
+            if isinstance(call.func, ast.Attribute) and isinstance(call.func.value, ast.Call) \
+                    and not call.func.value.keywords and not any(isinstance(a, ast.Starred) for a in call.func.value.args):
+                f = copy.copy(call.func)
+                f.value = templ(call.func.value)
+                c.func = f
             else:
-                holes.append(a)
-                args.append(ast.Name(id=f"_{len(holes)}", ctx=ast.Load()))
-        c.args = args
-        return ast.unparse(self._subst(c)), holes
+                c.func = copy.deepcopy(call.func)
+            args = []
+            for a in call.args:
+                if (isinstance(a, ast.Constant) and isinstance(a.value, str)) \
+                        or (isinstance(a, ast.Dict) and not a.keys):    # string constants and `{}` stay in the key
+                    args.append(copy.deepcopy(a))
+                else:
+                    holes.append(a)
+                    args.append(ast.Name(id=f"_{len(holes)}", ctx=ast.Load()))
+            c.args = args
+            return c
+        return ast.unparse(self._subst(templ(node))), holes
 
     def _call_atom(self, node, eff, as_statement=False):
         if any(isinstance(a, ast.Starred) for a in node.args):
@@ -787,6 +861,14 @@ class _Fn:
                 if elem_type(ty) is None:
                     raise Unsupported(f"{where}: `len` of a {ty} (lists only; the size of a set only compared with 0)")
                 return f"(Int.ofNat {t}.length)", "int"
+            if f.id in ("list", "set") and len(node.args) == 1:
+                t, ty = self.expr(node.args[0], eff)
+                et = elem_type(ty) if elem_type(ty) is not None else set_elem_type(ty)
+                if et is None:
+                    raise Unsupported(f"{where}: `{f.id}` of a {ty} (lists and sets only)")
+                if f.id == "list" and elem_type(ty) is None:
+                    raise Unsupported(f"{where}: `list` of a set (its order is not modelled)")
+                return t, (list_of(et) if f.id == "list" else set_of(et))   # a copy; as a set only membership is observed
             if f.id in ("max", "min") and len(node.args) == 2:
                 a, ta = self.expr(node.args[0], eff)
                 b, tb = self.expr(node.args[1], eff)
@@ -800,6 +882,11 @@ class _Fn:
                 return f"({src}.{f.id} (fun {v} => {body}))", "bool"
         if isinstance(f, ast.Attribute):
             recv, tr = self.expr(f.value, eff)
+            if set_elem_type(tr) is not None and f.attr == "intersection" and len(node.args) == 1:
+                a, ta = self.expr(node.args[0], eff)
+                if set_elem_type(tr) not in (elem_type(ta), set_elem_type(ta)):
+                    raise Unsupported(f"{where}: intersection of a {tr} with a {ta}")
+                return f"({recv}.filter (fun pyElem => {a}.contains pyElem))", tr
             if tr == "str":
                 if f.attr == "lower" and not node.args:
                     return f"({self.spec.prims['lower']} {recv})", "str"
@@ -993,7 +1080,9 @@ class _Fn:
         if ty == "unit":
             raise Unsupported(f"{where}: None is assigned to {name!r}")
         if name in self.locals:
-            if self.locals[name] != ty:
+            if self.locals[name] == ("opt", ty):
+                t = f"some {t}"                             # a value for a local that was `None` so far
+            elif self.locals[name] != ty:
                 raise Unsupported(f"{where}: {name!r} changes its type from {self.locals[name]} to {ty}")
             self.emit(depth, f"{lean_ident(name)} := {t}")
         elif name in self.pending and self.pending[name][1] is None:
@@ -1018,6 +1107,17 @@ class _Fn:
             return False                                   # only ever read by log / exception messages
         if isinstance(value, ast.List) and not value.elts and name in self.spec.local_types:
             return self._store(name, "[]", self.spec.local_types[name], depth, top, where, value)
+        if isinstance(value, ast.Call) and isinstance(value.func, ast.Name) and value.func.id == "set" \
+                and "set" not in self.assigned and "set" not in self.spec.params and not value.args and not value.keywords:
+            ty = self.spec.local_types.get(name, "sset")    # `set()`: the empty set (of strings unless declared)
+            if isinstance(ty, tuple) and ty[0] == "opt":
+                ty = ty[1]
+            if set_elem_type(ty) is None:
+                raise Unsupported(f"{where}: `set()` assigned to {name!r}, declared a {ty}")
+            return self._store(name, "[]", ty, depth, top, where, value)
+        if isinstance(value, ast.Constant) and value.value is None and isinstance(self.spec.local_types.get(name), tuple) \
+                and self.spec.local_types[name][0] == "opt":
+            return self._store(name, "none", self.spec.local_types[name], depth, top, where, value)
         try:
             t, ty = self._expr_or_lowered(value, depth, where)
         except Unsupported:
@@ -1119,6 +1219,8 @@ class _Fn:
             return f"({x} ++ {t})"
         if tx == ty and elem_type(tx) is not None and isinstance(op, ast.Add):
             return f"({x} ++ {t})"
+        if (tx, ty) == ("sset", "sset") and isinstance(op, ast.BitOr):
+            return f"({x} ++ {t})"                          # a set is a list of which only membership is observed
         raise Unsupported(f"{where}: augmented assignment {type(op).__name__} of a {ty} to a {tx}")
 
     # -- if
@@ -1250,9 +1352,18 @@ class _Fn:
         self.scopes.append(scope)
         self.lam += 1
         try:
-            while body and isinstance(body[0], ast.Assign) and len(body[0].targets) == 1 \
-                    and isinstance(body[0].targets[0], ast.Name) and self.assigned.get(body[0].targets[0].id) == 1 \
-                    and body[0].targets[0].id not in all_names_outside and len(body) > 1:
+            def dropped(st):
+                # a statement pinned to the empty action: its meaning is inside an atom of this spec (it prepares an
+                # argument of a call the atom stands for)
+                return self.spec.stmts.get(dump_stmts([st])) == ""
+            while body and len(body) > 1 and (dropped(body[0]) or (
+                    isinstance(body[0], ast.Assign) and len(body[0].targets) == 1
+                    and isinstance(body[0].targets[0], ast.Name) and self.assigned.get(body[0].targets[0].id) == 1
+                    and body[0].targets[0].id not in all_names_outside)):
+                if dropped(body[0]):
+                    self.uses["stmts"].add(dump_stmts([body[0]]))
+                    body.pop(0)
+                    continue
                 name, val = body[0].targets[0].id, body[0].value
                 if name in self.logonly and _harmless(val) and self._bound(val):
                     self.logseen.add(name)
@@ -1354,8 +1465,10 @@ class _Fn:
         accs = set()
         for b in body:
             for n in ast.walk(b):
-                if isinstance(n, ast.Name) and isinstance(n.ctx, ast.Store):
-                    accs.add(n.id)
+                if isinstance(n, ast.Name) and isinstance(n.ctx, ast.Store) \
+                        and not (n.id in self.loopvars and any(isinstance(f, (ast.For, ast.comprehension)) and f.target is n
+                                                               for bb in body for f in ast.walk(bb))):
+                    accs.add(n.id)                          # (the target of a nested loop / comprehension is no accumulator)
                 if isinstance(n, ast.Expr) and isinstance(n.value, ast.Call) and isinstance(n.value.func, ast.Attribute) \
                         and n.value.func.attr == "append" and isinstance(n.value.func.value, ast.Name):
                     accs.add(n.value.func.value.id)
@@ -1378,7 +1491,9 @@ class _Fn:
             elif isinstance(b, ast.Assign) and len(b.targets) == 1 and isinstance(b.targets[0], ast.Name) \
                     and b.targets[0].id == acc:
                 t, ty = self.expr(b.value, False)
-                if ty != ta:
+                if ta == ("opt", ty):
+                    t = f"(some {t})"
+                elif ty != ta:
                     raise Unsupported(f"{w}: {acc!r} changes its type from {ta} to {ty}")
                 steps.append(t)
             elif isinstance(b, ast.Expr) and isinstance(b.value, ast.Call) and isinstance(b.value.func, ast.Attribute) \
@@ -1388,10 +1503,30 @@ class _Fn:
                 if elem_type(ta) != ty:
                     raise Unsupported(f"{w}: a {ty} appended to a {ta}")
                 steps.append(f"({a} ++ [{t}])")
+            elif isinstance(b, ast.If) and self._none_test(b.test) is not None:
+                # `if x is None: … else: …`: the branch on which x holds a value reads the payload
+                name, is_none, ty = self._none_test(b.test)
+                vstmts, nstmts = (b.orelse, b.body) if is_none else (b.body, b.orelse)
+                tv = self._narrowed(name, ty, lambda: self._fold_seq(vstmts, acc, where)) if vstmts else a
+                tn = self._fold_seq(nstmts, acc, where) if nstmts else a
+                steps.append(f"(match {lean_ident(name)} with | none => {tn} | some pyVal_{name} => {tv})")
             elif isinstance(b, ast.If):
                 c = self.cond(b.test, False)
                 steps.append(f"(if {c} then {self._fold_seq(b.body, acc, where)} else "
                              f"{self._fold_seq(b.orelse, acc, where) if b.orelse else a})")
+            elif isinstance(b, ast.For):
+                # a nested loop that updates the same accumulator: an inner fold that starts from its current value
+                if b.orelse or not isinstance(b.target, ast.Name) or b.target.id not in self.loopvars \
+                        or any(b.target.id in sc for sc in self.scopes):
+                    raise Unsupported(f"{w}: nested loop `for {ast.unparse(b.target)} in …` (a plain name bound by this "
+                                      "loop only, no else)")
+                src, ts = self.expr(b.iter, False)
+                et = elem_type(ts)
+                if et is None:
+                    raise Unsupported(f"{w}: nested loop over a {ts} (lists only)")
+                v = lean_ident(b.target.id)
+                inner = self._under({b.target.id: (v, et)}, lambda: self._fold_seq(b.body, acc, where))
+                steps.append(f"({src}.foldl (fun {a} {v} => {inner}) {a})")
             else:
                 raise Unsupported(f"{w}: statement `{ast.unparse(b)[:60]}` in an accumulating loop")
         if not steps:
